@@ -9,6 +9,13 @@ cd $H
 mkdir -p bin .build
 go build -o bin/vinstr ./cmd/vinstr
 bin/vinstr
+# TLC behaviours of the dispatcher model (replayed against the real jrpc2.Server by the C10 check)
+mkdir -p .build/tla
+for n in 2 3 4; do
+  if [ ! -s .build/tla/traces$n.json ] || [ tla/Dispatch.tla -nt .build/tla/traces$n.json ]; then
+    python3 tools/tla_traces.py $n .build/tla/traces$n.json || echo "tla_traces: TLC run failed (the C10 replay space will report missing traces)"
+  fi
+done
 if [ -n "$VERIF_REPO" ]; then
   T=${VERIF_ALT_TAG:-alt}
   mkdir -p .build/$T
